@@ -19,7 +19,7 @@ RULE = ('as C01 but biased to failure: whole-message and per-recipient '
         'bodies, up to 8 recipients; non-trivial = at least one failure event '
         'that calls for a bounce; distinct = distinct event-log digest')
 COMPONENTS = qc.COMPONENTS
-BUDGET = {'quick': 12000, 'thorough': 300000}
+BUDGET = {'quick': 20000, 'thorough': 300000}
 PROBES = ['bounce', 'retry-exhaustion', 'grouped-replies', 'null-sender-failure',
           'failing-bounce', 'bounce-factory-none', 'separate-bounce-queue',
           'headers-only', 'backend:dict', 'backend:disk', 'backend:redis',
